@@ -10,86 +10,230 @@
 //   c04_algebra record OUT seed quick|thorough [only-combinator]
 #include <common/vjson.hpp>
 
-#include <fcppt/function_impl.hpp>
-#include <fcppt/unit.hpp>
-#include <fcppt/either/apply.hpp>
-#include <fcppt/either/bind.hpp>
-#include <fcppt/either/comparison.hpp>
-#include <fcppt/either/failure_opt.hpp>
-#include <fcppt/either/first_success.hpp>
-#include <fcppt/either/from_optional.hpp>
-#include <fcppt/either/join.hpp>
-#include <fcppt/either/loop.hpp>
-#include <fcppt/either/map.hpp>
-#include <fcppt/either/map_failure.hpp>
-#include <fcppt/either/match.hpp>
-#include <fcppt/either/monad.hpp>
-#include <fcppt/either/object_impl.hpp>
-#include <fcppt/either/sequence.hpp>
-#include <fcppt/either/success_opt.hpp>
-#include <fcppt/either/try_call.hpp>
-#include <fcppt/monad/bind.hpp>
-#include <fcppt/optional/alternative.hpp>
-#include <fcppt/optional/apply.hpp>
-#include <fcppt/optional/bind.hpp>
-#include <fcppt/optional/cat.hpp>
-#include <fcppt/optional/combine.hpp>
-#include <fcppt/optional/comparison.hpp>
-#include <fcppt/optional/filter.hpp>
-#include <fcppt/optional/from.hpp>
-#include <fcppt/optional/join.hpp>
-#include <fcppt/optional/make_if.hpp>
-#include <fcppt/optional/map.hpp>
-#include <fcppt/optional/maybe.hpp>
-#include <fcppt/optional/maybe_multi.hpp>
-#include <fcppt/optional/maybe_void.hpp>
-#include <fcppt/optional/monad.hpp>
-#include <fcppt/optional/object_impl.hpp>
-#include <fcppt/optional/sequence.hpp>
-#include <fcppt/variant/apply.hpp>
-#include <fcppt/variant/compare.hpp>
-#include <fcppt/variant/comparison.hpp>
-#include <fcppt/variant/holds_type.hpp>
-#include <fcppt/variant/match.hpp>
-#include <fcppt/variant/object_impl.hpp>
-#include <fcppt/variant/to_optional.hpp>
+// Build configurations (checks/c04.py): by default every record kind is compiled in.  With
+// -DC04_SELECT only the kinds named by -DC04_K_<kind>=1 are compiled (and only their headers are
+// included), so that a kind whose API no longer compiles against the tree under test cannot
+// block the judgement of the others.
+#ifdef C04_SELECT
+#define K(k) (C04_K_##k + 0)
+#else
+#define K(k) 1
+#endif
 
+#include <fcppt/unit.hpp>
+#include <fcppt/either/object_impl.hpp>
+#include <fcppt/optional/object_impl.hpp>
+#include <fcppt/variant/object_impl.hpp>
+#if K(opt_maybe)
+#include <fcppt/optional/maybe.hpp>
+#endif
+#if K(opt_maybe_void) || K(opt_ref_write) || K(opt_value_copy_write) || K(var_ref_write)
+#include <fcppt/optional/maybe_void.hpp>
+#endif
+#if K(opt_map)
+#include <fcppt/optional/map.hpp>
+#endif
+#if K(opt_bind)
+#include <fcppt/optional/bind.hpp>
+#endif
+#if K(monad_bind_opt) || K(monad_bind_eit)
+#include <fcppt/monad/bind.hpp>
+#endif
+#if K(monad_bind_opt) || K(monad_chain_opt) || K(monad_do_opt) || K(monad_return_opt)
+#include <fcppt/optional/monad.hpp>
+#endif
+#if K(monad_bind_eit) || K(monad_chain_eit) || K(monad_do_eit) || K(monad_return_eit)
+#include <fcppt/either/monad.hpp>
+#endif
+#if K(opt_join)
+#include <fcppt/optional/join.hpp>
+#endif
+#if K(opt_apply)
+#include <fcppt/optional/apply.hpp>
+#endif
+#if K(opt_filter)
+#include <fcppt/optional/filter.hpp>
+#endif
+#if K(opt_alternative)
+#include <fcppt/optional/alternative.hpp>
+#endif
+#if K(opt_combine)
+#include <fcppt/optional/combine.hpp>
+#endif
+#if K(opt_cat)
+#include <fcppt/optional/cat.hpp>
+#endif
+#if K(opt_sequence)
+#include <fcppt/algorithm/loop_break_tuple.hpp>
+#include <fcppt/algorithm/map_tuple.hpp>
+#include <fcppt/optional/sequence.hpp>
+#include <fcppt/tuple/get.hpp>
+#include <fcppt/tuple/object.hpp>
+#endif
+#if K(opt_from)
+#include <fcppt/optional/from.hpp>
+#endif
+#if K(opt_maybe_multi)
+#include <fcppt/optional/maybe_multi.hpp>
+#endif
+#if K(opt_make_if)
+#include <fcppt/optional/make_if.hpp>
+#endif
+#if K(opt_eq) || K(opt_ne) || K(opt_less)
+#include <fcppt/optional/comparison.hpp>
+#endif
+#if K(eit_match)
+#include <fcppt/either/match.hpp>
+#endif
+#if K(eit_map)
+#include <fcppt/either/map.hpp>
+#endif
+#if K(eit_map_failure)
+#include <fcppt/either/map_failure.hpp>
+#endif
+#if K(eit_bind)
+#include <fcppt/either/bind.hpp>
+#endif
+#if K(eit_join)
+#include <fcppt/either/join.hpp>
+#endif
+#if K(eit_apply)
+#include <fcppt/either/apply.hpp>
+#endif
+#if K(eit_sequence)
+#include <fcppt/either/sequence.hpp>
+#endif
+#if K(eit_first_success)
+#include <fcppt/function_impl.hpp>
+#include <fcppt/either/first_success.hpp>
+#endif
+#if K(eit_loop)
+#include <fcppt/either/loop.hpp>
+#endif
+#if K(eit_from_optional)
+#include <fcppt/either/from_optional.hpp>
+#endif
+#if K(eit_try_call)
+#include <fcppt/either/try_call.hpp>
+#endif
+#if K(eit_success_opt)
+#include <fcppt/either/success_opt.hpp>
+#endif
+#if K(eit_failure_opt)
+#include <fcppt/either/failure_opt.hpp>
+#endif
+#if K(eit_eq) || K(eit_ne)
+#include <fcppt/either/comparison.hpp>
+#endif
+#if K(var_match)
+#include <fcppt/variant/match.hpp>
+#endif
+#if K(var_apply) || K(var_dynamic_cast)
+#include <fcppt/variant/apply.hpp>
+#endif
+#if K(var_to_optional)
+#include <fcppt/variant/to_optional.hpp>
+#endif
+#if K(var_holds_type)
+#include <fcppt/variant/holds_type.hpp>
+#endif
+#if K(var_compare)
+#include <fcppt/variant/compare.hpp>
+#endif
+#if K(var_eq) || K(var_ne) || K(var_less)
+#include <fcppt/variant/comparison.hpp>
+#endif
+// ---- extension round (observed-only kinds unless spec/AlgebraJudge.tla InScope says otherwise)
+#if K(opt_from_pointer) || K(opt_to_pointer) || K(opt_deref) || K(opt_copy_value) || K(opt_ref_write) || K(var_ref_write)
 #include <fcppt/make_ref.hpp>
 #include <fcppt/reference_impl.hpp>
-#include <fcppt/cast/dynamic_fun.hpp>
-#include <fcppt/either/construct.hpp>
-#include <fcppt/either/error.hpp>
-#include <fcppt/either/error_from_optional.hpp>
-#include <fcppt/either/make_failure.hpp>
-#include <fcppt/either/make_success.hpp>
-#include <fcppt/either/no_error.hpp>
-#include <fcppt/either/output.hpp>
-#include <fcppt/either/sequence_error.hpp>
-#include <fcppt/either/to_exception.hpp>
-#include <fcppt/monad/chain.hpp>
-#include <fcppt/monad/do.hpp>
-#include <fcppt/monad/return.hpp>
-#include <fcppt/mpl/list/object.hpp>
-#include <fcppt/optional/assign.hpp>
-#include <fcppt/optional/copy_value.hpp>
-#include <fcppt/optional/deref.hpp>
-#include <fcppt/optional/from_pointer.hpp>
-#include <fcppt/optional/make.hpp>
-#include <fcppt/optional/nothing.hpp>
-#include <fcppt/optional/output.hpp>
 #include <fcppt/optional/reference.hpp>
-#include <fcppt/optional/to_exception.hpp>
-#include <fcppt/optional/to_pointer.hpp>
+#endif
+#if K(var_dynamic_cast)
+#include <fcppt/cast/dynamic_fun.hpp>
+#include <fcppt/mpl/list/object.hpp>
 #include <fcppt/variant/dynamic_cast.hpp>
+#endif
+#if K(eit_construct)
+#include <fcppt/either/construct.hpp>
+#endif
+#if K(eit_error_from_optional) || K(eit_sequence_error)
+#include <fcppt/either/error.hpp>
+#include <fcppt/either/no_error.hpp>
+#endif
+#if K(eit_error_from_optional)
+#include <fcppt/either/error_from_optional.hpp>
+#endif
+#if K(eit_make_failure)
+#include <fcppt/either/make_failure.hpp>
+#endif
+#if K(eit_make_success)
+#include <fcppt/either/make_success.hpp>
+#endif
+#if K(eit_output)
+#include <fcppt/either/output.hpp>
+#endif
+#if K(eit_sequence_error)
+#include <fcppt/either/sequence_error.hpp>
+#endif
+#if K(eit_to_exception)
+#include <fcppt/either/to_exception.hpp>
+#endif
+#if K(monad_chain_opt) || K(monad_chain_eit)
+#include <fcppt/monad/chain.hpp>
+#endif
+#if K(monad_do_opt) || K(monad_do_eit)
+#include <fcppt/monad/do.hpp>
+#endif
+#if K(monad_return_opt) || K(monad_return_eit)
+#include <fcppt/monad/return.hpp>
+#endif
+#if K(opt_assign)
+#include <fcppt/optional/assign.hpp>
+#endif
+#if K(opt_copy_value)
+#include <fcppt/optional/copy_value.hpp>
+#endif
+#if K(opt_deref)
+#include <fcppt/optional/deref.hpp>
+#endif
+#if K(opt_from_pointer)
+#include <fcppt/optional/from_pointer.hpp>
+#endif
+#if K(opt_make)
+#include <fcppt/optional/make.hpp>
+#endif
+#if K(opt_nothing)
+#include <fcppt/optional/nothing.hpp>
+#endif
+#if K(opt_output) || K(optopt_output)
+#include <fcppt/optional/output.hpp>
+#endif
+#if K(opt_to_exception)
+#include <fcppt/optional/to_exception.hpp>
+#endif
+#if K(opt_to_pointer)
+#include <fcppt/optional/to_pointer.hpp>
+#endif
+#if K(var_output)
 #include <fcppt/variant/output.hpp>
+#endif
+#if K(var_ref_write)
 #include <fcppt/variant/to_optional_ref.hpp>
+#endif
+#if K(var_get)
+#include <fcppt/variant/get_unsafe.hpp>
+#endif
+#include <sys/time.h>
 #include <sstream>
+#include <algorithm>
 #include <array>
 #include <cstdint>
 #include <functional>
 #include <string>
 #include <type_traits>
 #include <utility>
+#include <variant>
 #include <vector>
 
 namespace
@@ -137,10 +281,23 @@ using EED = fcppt::either::object<Fv, ED>;
 using VD = fcppt::variant::object<A1, A2, A3>;
 using A4 = Alt<4>;
 using VD4 = fcppt::variant::object<A1, A2, A3, A4>;
+#if K(eit_sequence_error) || K(eit_error_from_optional)
 using UE = fcppt::either::error<Fv>; // either<Fv, unit>
+#endif
+// polymorphic, so that a catch clause that looks at the dynamic type sees the derived class
 struct Exc
 {
   int e;
+  explicit Exc(int x) : e(x) {}
+  Exc(Exc const &) = default;
+  Exc(Exc &&) = default;
+  Exc &operator=(Exc const &) = default;
+  Exc &operator=(Exc &&) = default;
+  virtual ~Exc() = default;
+};
+struct ExcDerived : Exc
+{
+  explicit ExcDerived(int x) : Exc(x) {}
 };
 // what the function passed to try_call does
 struct Outcome
@@ -164,6 +321,15 @@ template <typename T>
 std::string js(fcppt::optional::object<T> const &o);
 template <typename F, typename S>
 std::string js(fcppt::either::object<F, S> const &e);
+#if K(opt_sequence)
+// the result of optional::sequence over a tuple of optionals: the values in order, like a container
+using SeqTuple = fcppt::tuple::object<Alt<0>, Alt<1>, Alt<2>>;
+std::string js(SeqTuple const &t)
+{
+  return "[" + std::to_string(fcppt::tuple::get<0>(t).v) + "," + std::to_string(fcppt::tuple::get<1>(t).v) + "," +
+         std::to_string(fcppt::tuple::get<2>(t).v) + "]";
+}
+#endif
 template <typename T>
 std::string js(std::vector<T> const &v)
 {
@@ -188,25 +354,23 @@ std::string js(fcppt::either::object<F, S> const &e)
   return e.has_success() ? "{\"t\":\"succ\",\"v\":" + js(e.get_success_unsafe()) + "}"
                          : "{\"t\":\"fail\",\"v\":" + js(e.get_failure_unsafe()) + "}";
 }
+// Variants are rendered through impl() (the wrapped std::variant): the rendering of an ARGUMENT must
+// not depend on type_index() / get_unsafe(), which are themselves driven and judged (var_index,
+// var_get); a lying accessor would otherwise corrupt the inputs the model is evaluated on.
 std::string js(VD const &v)
 {
-  // index and value are read through the public accessors
-  switch (v.type_index())
-  {
-  case 0: return js_tagged(v.get_unsafe<A1>());
-  case 1: return js_tagged(v.get_unsafe<A2>());
-  default: return js_tagged(v.get_unsafe<A3>());
-  }
+  return std::visit([](auto const &x) { return js_tagged(x); }, v.impl());
 }
 std::string js(VD4 const &v)
 {
-  switch (v.type_index())
-  {
-  case 0: return js_tagged(v.get_unsafe<A1>());
-  case 1: return js_tagged(v.get_unsafe<A2>());
-  case 2: return js_tagged(v.get_unsafe<A3>());
-  default: return js_tagged(v.get_unsafe<A4>());
-  }
+  return std::visit([](auto const &x) { return js_tagged(x); }, v.impl());
+}
+// what type_index() reports, 1-based; absurd values are clamped (TLC integers are 32-bit)
+template <typename V>
+int reported_index(V const &v)
+{
+  auto const i = v.type_index();
+  return i < 64U ? static_cast<int>(i) + 1 : 99;
 }
 std::string js(Outcome const &o)
 {
@@ -410,18 +574,66 @@ vj::Rng rng_for(char const *name)
 
 bool wanted(char const *f) { return g_only.empty() || g_only == f; }
 
-// one record: prefix (flushed before the call), the call itself, result and call log
-template <typename Call>
-void record(char const *f, std::string const &cat, std::string const &args, std::string const &extra, Call const &call)
+// Watchdog: every record gets a fresh budget of CPU time (ITIMER_VIRTUAL counts only the time this
+// process computes, so a loaded machine cannot trigger it); an endless loop inside a driven call ends
+// in exit code 68 with the truncated record naming the combinator.
+constexpr int watchdog_cpu_seconds = 10;
+void arm_watchdog()
+{
+  itimerval tv{};
+  tv.it_value.tv_sec = watchdog_cpu_seconds;
+  ::setitimer(ITIMER_VIRTUAL, &tv, nullptr);
+}
+void on_vtalrm(int) { vj::on_signal(SIGALRM); }
+
+// An exception that escapes from a driven call (none of the combinators documents one, the harness's
+// own continuations only throw Exc where the combinator is documented to catch it) is written as a
+// record with a field "exc" instead of "res": checks/c04.py turns it into a verdict for this kind
+// and the run continues with the next record.
+std::string exc_text(char const *what)
+{
+  std::string r;
+  for (char const *p = what; *p != '\0' && r.size() < 80; ++p)
+    r += (*p >= ' ' && *p < 127 && *p != '"' && *p != '\\') ? *p : '?';
+  return r;
+}
+template <typename Body>
+void record_guarded(char const *f, std::string const &cat, std::string const &args, std::string const &extra, Body const &body)
 {
   g_calls.clear();
   std::string pre = "{\"f\":\"";
   pre += f;
   pre += "\",\"cat\":\"" + cat + "\",\"a\":[" + args + "]" + extra;
+  arm_watchdog();
   vj::begin_call(pre);
-  std::string const res = js(call());
-  vj::end_call(",\"res\":" + res + ",\"calls\":[" + g_calls + "]}");
+  std::string res;
+  std::string exc;
+  bool threw = false;
+  try
+  {
+    res = body();
+  }
+  catch (std::exception const &e)
+  {
+    threw = true;
+    exc = exc_text(e.what());
+  }
+  catch (...)
+  {
+    threw = true;
+    exc = "(not a std::exception)";
+  }
+  if (threw)
+    vj::end_call(",\"exc\":\"" + exc + "\",\"calls\":[" + g_calls + "]}");
+  else
+    vj::end_call(",\"res\":" + res + ",\"calls\":[" + g_calls + "]}");
   ++g_records;
+}
+// one record: prefix (flushed before the call), the call itself, result and call log
+template <typename Call>
+void record(char const *f, std::string const &cat, std::string const &args, std::string const &extra, Call const &call)
+{
+  record_guarded(f, cat, args, extra, [&call]() -> std::string { return js(call()); });
 }
 
 // run body with a fresh copy of proto as non-const lvalue, const lvalue or rvalue
@@ -454,6 +666,8 @@ void for_seqs(int maxlen, Body const &body)
 }
 
 char const *const cats3 = "lcr";
+// value categories of the three arguments of the ternary forms (all the same, and mixed)
+char const *const cats_ternary[] = {"lll", "rrr", "lcr", "rlc"};
 
 // continuation factories -------------------------------------------------------------------
 // unary continuation Alt<K> -> R; takes its argument BY VALUE (moves out of an rvalue)
@@ -526,6 +740,7 @@ struct Sizes
 
 void drive_optional(Sizes const &sz)
 {
+#if K(opt_maybe)
   if (wanted("opt_maybe"))
     for_tables<Val>(1, 100, rng_for("opt_maybe"), [&](Table<Val> const &t)
     {
@@ -539,6 +754,8 @@ void drive_optional(Sizes const &sz)
             });
         });
     });
+#endif
+#if K(opt_maybe_void)
   if (wanted("opt_maybe_void"))
     for_values<OD>([&](OD const &o)
     {
@@ -549,6 +766,8 @@ void drive_optional(Sizes const &sz)
           return fcppt::unit{};
         });
     });
+#endif
+#if K(opt_map)
   if (wanted("opt_map"))
     for_tables<Val>(1, 100, rng_for("opt_map"), [&](Table<Val> const &t)
     {
@@ -559,6 +778,8 @@ void drive_optional(Sizes const &sz)
           { return with_cat(*c, o, [&](auto &&a) { return fcppt::optional::map(FWD(a), fn1<Val>("f", 0, t)); }); });
       });
     });
+#endif
+#if K(opt_bind) || K(monad_bind_opt)
   if (wanted("opt_bind") || wanted("monad_bind_opt"))
     for_tables<OD>(1, 100, rng_for("opt_bind"), [&](Table<OD> const &t)
     {
@@ -566,15 +787,21 @@ void drive_optional(Sizes const &sz)
       {
         for (char const *c = cats3; *c; ++c)
         {
+#if K(opt_bind)
           if (wanted("opt_bind"))
             record("opt_bind", std::string(1, *c), js(o), ex_tf(t), [&]
             { return with_cat(*c, o, [&](auto &&a) { return fcppt::optional::bind(FWD(a), fn1<OD>("f", 0, t)); }); });
+#endif
+#if K(monad_bind_opt)
           if (wanted("monad_bind_opt"))
             record("monad_bind_opt", std::string(1, *c), js(o), ex_tf(t), [&]
             { return with_cat(*c, o, [&](auto &&a) { return fcppt::monad::bind(FWD(a), fn1<OD>("f", 0, t)); }); });
+#endif
         }
       });
     });
+#endif
+#if K(opt_join)
   if (wanted("opt_join"))
     for_values<OOD>([&](OOD const &o)
     {
@@ -582,6 +809,8 @@ void drive_optional(Sizes const &sz)
         record("opt_join", std::string(1, *c), js(o), "", [&]
         { return with_cat(*c, o, [&](auto &&a) { return fcppt::optional::join(FWD(a)); }); });
     });
+#endif
+#if K(opt_filter)
   if (wanted("opt_filter"))
     for_tables<bool>(1, 100, rng_for("opt_filter"), [&](Table<bool> const &t)
     {
@@ -601,8 +830,10 @@ void drive_optional(Sizes const &sz)
           });
       });
     });
+#endif
   // the same with a predicate taking its parameter BY VALUE ([](T x)): for an rvalue source the held
   // value must still be intact in the result (a moved-from Val holds 7)
+#if K(opt_filter)
   if (wanted("opt_filter"))
     for_tables<bool>(1, 100, rng_for("opt_filter"), [&](Table<bool> const &t)
     {
@@ -622,30 +853,40 @@ void drive_optional(Sizes const &sz)
           });
       });
     });
+#endif
   // continuations taking T && and consuming it, rvalue sources only (they do not bind to what the
   // library hands over for lvalue sources)
   for_tables<Val>(1, 100, rng_for("rref"), [&](Table<Val> const &t)
   {
     for_values<OD>([&](OD const &o)
     {
+#if K(opt_map)
       if (wanted("opt_map"))
         record("opt_map", "r", js(o), ",\"pm\":\"rref\"" + ex_tf(t), [&] { OD a(o); return fcppt::optional::map(std::move(a), fn1c<Val>("f", 0, t)); });
+#endif
+#if K(opt_apply)
       if (wanted("opt_apply"))
         record("opt_apply", "r", js(o), ",\"pm\":\"rref\"" + ex_tf(t), [&] { OD a(o); return fcppt::optional::apply(fn1c<Val>("f", 0, t), std::move(a)); });
+#endif
+#if K(opt_maybe)
       if (wanted("opt_maybe"))
         for (int d = 0; d < N; ++d)
           record("opt_maybe", "r", js(o), ",\"pm\":\"rref\"" + ex_d<Val>(d) + ex_tf(t), [&]
           { OD a(o); return fcppt::optional::maybe(std::move(a), fn0<Val>("d", 0, d), fn1c<Val>("f", 0, t)); });
+#endif
     });
   });
   for_tables<OD>(1, 100, rng_for("rref2"), [&](Table<OD> const &t)
   {
     for_values<OD>([&](OD const &o)
     {
+#if K(opt_bind)
       if (wanted("opt_bind"))
         record("opt_bind", "r", js(o), ",\"pm\":\"rref\"" + ex_tf(t), [&] { OD a(o); return fcppt::optional::bind(std::move(a), fn1c<OD>("f", 0, t)); });
+#endif
     });
   });
+#if K(opt_alternative)
   if (wanted("opt_alternative"))
     for_values<OD>([&](OD const &o)
     {
@@ -654,6 +895,8 @@ void drive_optional(Sizes const &sz)
           record("opt_alternative", std::string(1, *c), js(o), ex_d<OD>(d), [&]
           { return with_cat(*c, o, [&](auto &&a) { return fcppt::optional::alternative(FWD(a), fn0<OD>("g", 0, d)); }); });
     });
+#endif
+#if K(opt_from)
   if (wanted("opt_from"))
     for_values<OD>([&](OD const &o)
     {
@@ -662,10 +905,14 @@ void drive_optional(Sizes const &sz)
           record("opt_from", std::string(1, *c), js(o), ex_d<Val>(d), [&]
           { return with_cat(*c, o, [&](auto &&a) { return fcppt::optional::from(FWD(a), fn0<Val>("d", 0, d)); }); });
     });
+#endif
+#if K(opt_make_if)
   if (wanted("opt_make_if"))
     for (int b = 0; b < 2; ++b)
       for (int d = 0; d < N; ++d)
         record("opt_make_if", "", js(b != 0), ex_d<Val>(d), [&] { return fcppt::optional::make_if(b != 0, fn0<Val>("g", 0, d)); });
+#endif
+#if K(opt_apply)
   if (wanted("opt_apply"))
   {
     vj::Rng rng{rng_for("opt_apply3")};
@@ -704,18 +951,20 @@ void drive_optional(Sizes const &sz)
       {
         std::vector<int> const cs{digits(i, 3, count_of<OD>)};
         OD const o1{dec<OD>(cs[0])}, o2{dec<OD>(cs[1])}, o3{dec<OD>(cs[2])};
-        for (char const *c = "lr"; *c; ++c)
-          record("opt_apply", std::string(3, *c), js(o1) + "," + js(o2) + "," + js(o3), ex_tf(t), [&]
+        for (char const *c : cats_ternary)
+          record("opt_apply", c, js(o1) + "," + js(o2) + "," + js(o3), ex_tf(t), [&]
           {
-            return with_cat(*c, o1, [&](auto &&a)
+            return with_cat(c[0], o1, [&](auto &&a)
             {
-              return with_cat(*c, o2, [&](auto &&b)
-              { return with_cat(*c, o3, [&](auto &&cc) { return fcppt::optional::apply(fn3<Val>("f", t), FWD(a), FWD(b), FWD(cc)); }); });
+              return with_cat(c[1], o2, [&](auto &&b)
+              { return with_cat(c[2], o3, [&](auto &&cc) { return fcppt::optional::apply(fn3<Val>("f", t), FWD(a), FWD(b), FWD(cc)); }); });
             });
           });
       }
     }
   }
+#endif
+#if K(opt_maybe_multi)
   if (wanted("opt_maybe_multi"))
     for_tables<Val>(2, sz.t2 / 4, rng_for("opt_maybe_multi"), [&](Table<Val> const &t)
     {
@@ -737,6 +986,45 @@ void drive_optional(Sizes const &sz)
         });
       });
     });
+  // the variadic forms with one optional (all 27 tables) and with three (seeded ternary tables)
+  if (wanted("opt_maybe_multi"))
+  {
+    for_tables<Val>(1, 100, rng_for("opt_maybe_multi1"), [&](Table<Val> const &t)
+    {
+      int const d = t.codes[1];
+      for_values<OD>([&](OD const &o)
+      {
+        for (char const *c = cats3; *c; ++c)
+          record("opt_maybe_multi", std::string(1, *c), js(o), ex_d<Val>(d) + ex_tf(t), [&]
+          { return with_cat(*c, o, [&](auto &&a) { return fcppt::optional::maybe_multi(fn0<Val>("d", 0, d), fn1<Val>("f", 0, t), FWD(a)); }); });
+      });
+    });
+    vj::Rng rng{rng_for("opt_maybe_multi3")};
+    for (long k = 0; k < sz.t3; ++k)
+    {
+      Table<Val> const t{table_random<Val>(3, rng)};
+      int const d = static_cast<int>(rng.below(N));
+      for (long i = 0; i < ipow(count_of<OD>, 3); ++i)
+      {
+        std::vector<int> const cs{digits(i, 3, count_of<OD>)};
+        OD const o1{dec<OD>(cs[0])}, o2{dec<OD>(cs[1])}, o3{dec<OD>(cs[2])};
+        for (char const *c : cats_ternary)
+          record("opt_maybe_multi", c, js(o1) + "," + js(o2) + "," + js(o3), ex_d<Val>(d) + ex_tf(t), [&]
+          {
+            return with_cat(c[0], o1, [&](auto &&a)
+            {
+              return with_cat(c[1], o2, [&](auto &&b)
+              {
+                return with_cat(c[2], o3, [&](auto &&cc)
+                { return fcppt::optional::maybe_multi(fn0<Val>("d", 0, d), fn3<Val>("f", t), FWD(a), FWD(b), FWD(cc)); });
+              });
+            });
+          });
+      }
+    }
+  }
+#endif
+#if K(opt_combine)
   if (wanted("opt_combine"))
     for_tables<Val>(2, sz.t2, rng_for("opt_combine"), [&](Table<Val> const &t)
     {
@@ -757,33 +1045,72 @@ void drive_optional(Sizes const &sz)
         });
       });
     });
+#endif
+#if K(opt_cat) || K(opt_sequence)
   if (wanted("opt_cat") || wanted("opt_sequence"))
     for_seqs<OD>(sz.maxlen, [&](std::vector<OD> const &xs)
     {
       for (char const *c = cats3; *c; ++c)
       {
+#if K(opt_cat)
         if (wanted("opt_cat"))
           record("opt_cat", std::string(1, *c), js(xs), "", [&]
           { return with_cat(*c, xs, [&](auto &&a) { return fcppt::optional::cat<std::vector<Val>>(FWD(a)); }); });
+#endif
+#if K(opt_sequence)
         if (wanted("opt_sequence"))
           record("opt_sequence", std::string(1, *c), js(xs), "", [&]
           { return with_cat(*c, xs, [&](auto &&a) { return fcppt::optional::sequence<std::vector<Val>>(FWD(a)); }); });
+#endif
       }
     });
+#endif
+#if K(opt_sequence)
+  // sequence over a TUPLE of optionals of three different types (detail/check_sequence.hpp, test
+  // "optional::sequence tuple"): nothing in any position gives nothing, else the tuple of the values
+  if (wanted("opt_sequence"))
+  {
+    using O1 = fcppt::optional::object<A1>;
+    using O2 = fcppt::optional::object<A2>;
+    using Src = fcppt::tuple::object<OD, O1, O2>;
+    for_values<OD>([&](OD const &o0)
+    {
+      for_values<O1>([&](O1 const &o1)
+      {
+        for_values<O2>([&](O2 const &o2)
+        {
+          Src const src{o0, o1, o2};
+          for (char const *c = cats3; *c; ++c)
+            record("opt_sequence", std::string(1, *c), "[" + js(o0) + "," + js(o1) + "," + js(o2) + "]", ",\"pm\":\"tuple\"", [&]
+            { return with_cat(*c, src, [&](auto &&a) { return fcppt::optional::sequence<SeqTuple>(FWD(a)); }); });
+        });
+      });
+    });
+  }
+#endif
+#if K(opt_eq) || K(opt_ne) || K(opt_less)
   if (wanted("opt_eq") || wanted("opt_ne") || wanted("opt_less"))
     for_values<OD>([&](OD const &x)
     {
       for_values<OD>([&](OD const &y)
       {
+#if K(opt_eq)
         if (wanted("opt_eq")) record("opt_eq", "cc", js(x) + "," + js(y), "", [&] { return x == y; });
+#endif
+#if K(opt_ne)
         if (wanted("opt_ne")) record("opt_ne", "cc", js(x) + "," + js(y), "", [&] { return x != y; });
+#endif
+#if K(opt_less)
         if (wanted("opt_less")) record("opt_less", "cc", js(x) + "," + js(y), "", [&] { return x < y; });
+#endif
       });
     });
+#endif
 }
 
 void drive_either(Sizes const &sz)
 {
+#if K(eit_match)
   if (wanted("eit_match"))
     for_tables<Val>(1, 100, rng_for("eit_match"), [&](Table<Val> const &tf)
     {
@@ -800,6 +1127,8 @@ void drive_either(Sizes const &sz)
         });
       });
     });
+#endif
+#if K(eit_map) || K(eit_map_failure)
   if (wanted("eit_map") || wanted("eit_map_failure"))
     for_tables<Val>(1, 100, rng_for("eit_map"), [&](Table<Val> const &t)
     {
@@ -807,18 +1136,24 @@ void drive_either(Sizes const &sz)
       {
         for (char const *c = cats3; *c; ++c)
         {
+#if K(eit_map)
           if (wanted("eit_map"))
             record("eit_map", std::string(1, *c), js(e), ex_tf(t), [&]
             { return with_cat(*c, e, [&](auto &&a) { return fcppt::either::map(FWD(a), fn1<Val>("f", 0, t)); }); });
+#endif
+#if K(eit_map_failure)
           if (wanted("eit_map_failure"))
           {
             Table<Fv> const tfail{t.arity, t.codes}; // same codes, failure-typed results
             record("eit_map_failure", std::string(1, *c), js(e), ex_tf(tfail), [&]
             { return with_cat(*c, e, [&](auto &&a) { return fcppt::either::map_failure(FWD(a), fn1<Fv, Fv>("f", 0, tfail)); }); });
           }
+#endif
         }
       });
     });
+#endif
+#if K(eit_bind) || K(monad_bind_eit)
   if (wanted("eit_bind") || wanted("monad_bind_eit"))
     for_tables<ED>(1, 1000, rng_for("eit_bind"), [&](Table<ED> const &t)
     {
@@ -826,38 +1161,52 @@ void drive_either(Sizes const &sz)
       {
         for (char const *c = cats3; *c; ++c)
         {
+#if K(eit_bind)
           if (wanted("eit_bind"))
             record("eit_bind", std::string(1, *c), js(e), ex_tf(t), [&]
             { return with_cat(*c, e, [&](auto &&a) { return fcppt::either::bind(FWD(a), fn1<ED>("f", 0, t)); }); });
+#endif
+#if K(monad_bind_eit)
           if (wanted("monad_bind_eit"))
             record("monad_bind_eit", std::string(1, *c), js(e), ex_tf(t), [&]
             { return with_cat(*c, e, [&](auto &&a) { return fcppt::monad::bind(FWD(a), fn1<ED>("f", 0, t)); }); });
+#endif
         }
       });
     });
+#endif
   for_tables<Val>(1, 100, rng_for("eit_rref"), [&](Table<Val> const &t)
   {
     Table<Fv> const tfail{t.arity, t.codes};
     for_values<ED>([&](ED const &e)
     {
+#if K(eit_map)
       if (wanted("eit_map"))
         record("eit_map", "r", js(e), ",\"pm\":\"rref\"" + ex_tf(t), [&] { ED a(e); return fcppt::either::map(std::move(a), fn1c<Val>("f", 0, t)); });
+#endif
+#if K(eit_map_failure)
       if (wanted("eit_map_failure"))
         record("eit_map_failure", "r", js(e), ",\"pm\":\"rref\"" + ex_tf(tfail), [&]
         { ED a(e); return fcppt::either::map_failure(std::move(a), fn1c<Fv, Fv>("f", 0, tfail)); });
+#endif
+#if K(eit_match)
       if (wanted("eit_match"))
         record("eit_match", "r", js(e), ",\"pm\":\"rref\"" + ex_tf(t) + ",\"tg\":" + t.json(), [&]
         { ED a(e); return fcppt::either::match(std::move(a), fn1c<Val, Fv>("ff", 0, t), fn1c<Val, Val>("sf", 0, t)); });
+#endif
     });
   });
   for_tables<ED>(1, 1000, rng_for("eit_rref2"), [&](Table<ED> const &t)
   {
     for_values<ED>([&](ED const &e)
     {
+#if K(eit_bind)
       if (wanted("eit_bind"))
         record("eit_bind", "r", js(e), ",\"pm\":\"rref\"" + ex_tf(t), [&] { ED a(e); return fcppt::either::bind(std::move(a), fn1c<ED>("f", 0, t)); });
+#endif
     });
   });
+#if K(eit_join)
   if (wanted("eit_join"))
     for_values<EED>([&](EED const &e)
     {
@@ -865,6 +1214,8 @@ void drive_either(Sizes const &sz)
         record("eit_join", std::string(1, *c), js(e), "", [&]
         { return with_cat(*c, e, [&](auto &&a) { return fcppt::either::join(FWD(a)); }); });
     });
+#endif
+#if K(eit_apply)
   if (wanted("eit_apply"))
   {
     vj::Rng rng{rng_for("eit_apply3")};
@@ -900,31 +1251,36 @@ void drive_either(Sizes const &sz)
       {
         std::vector<int> const cs{digits(i, 3, count_of<ED>)};
         ED const e1{dec<ED>(cs[0])}, e2{dec<ED>(cs[1])}, e3{dec<ED>(cs[2])};
-        for (char const *c = "lr"; *c; ++c)
-          record("eit_apply", std::string(3, *c), js(e1) + "," + js(e2) + "," + js(e3), ex_tf(t), [&]
+        for (char const *c : cats_ternary)
+          record("eit_apply", c, js(e1) + "," + js(e2) + "," + js(e3), ex_tf(t), [&]
           {
-            return with_cat(*c, e1, [&](auto &&a)
+            return with_cat(c[0], e1, [&](auto &&a)
             {
-              return with_cat(*c, e2, [&](auto &&b)
-              { return with_cat(*c, e3, [&](auto &&cc) { return fcppt::either::apply(fn3<Val>("f", t), FWD(a), FWD(b), FWD(cc)); }); });
+              return with_cat(c[1], e2, [&](auto &&b)
+              { return with_cat(c[2], e3, [&](auto &&cc) { return fcppt::either::apply(fn3<Val>("f", t), FWD(a), FWD(b), FWD(cc)); }); });
             });
           });
       }
     }
   }
+#endif
+#if K(eit_sequence) || K(eit_first_success)
   if (wanted("eit_sequence") || wanted("eit_first_success"))
     for_seqs<ED>(sz.maxlen, [&](std::vector<ED> const &xs)
     {
       // either::sequence's requires-clause applies type_traits::value_type to Source without
       // removing the reference, so it can only be called with an rvalue source (lvalues are
       // rejected at compile time); only that category exists to be driven.
+#if K(eit_sequence)
       if (wanted("eit_sequence"))
         record("eit_sequence", "r", js(xs), "", [&]
         {
           std::vector<ED> copy(xs);
           return fcppt::either::sequence<std::vector<Val>>(std::move(copy));
         });
+#endif
       // lvalue categories: only if the tree under test accepts them
+#if K(eit_sequence)
       if (wanted("eit_sequence"))
         [&](auto const &cxs)
         {
@@ -938,6 +1294,8 @@ void drive_either(Sizes const &sz)
             });
           }
         }(xs);
+#endif
+#if K(eit_first_success)
       if (wanted("eit_first_success"))
       {
         using function_type = fcppt::function<ED()>;
@@ -950,7 +1308,10 @@ void drive_either(Sizes const &sz)
           }});
         record("eit_first_success", "c", js(xs), "", [&] { return fcppt::either::first_success(fns); });
       }
+#endif
     });
+#endif
+#if K(eit_loop)
   if (wanted("eit_loop"))
     // scripts: k successes followed by a failure (the precondition of loop: _next eventually fails)
     for (int k = 0; k <= sz.maxlen; ++k)
@@ -972,6 +1333,8 @@ void drive_either(Sizes const &sz)
               [](Val x) { log_call("l", 0, js(x)); });
         });
       }
+#endif
+#if K(eit_from_optional)
   if (wanted("eit_from_optional"))
     for_values<OD>([&](OD const &o)
     {
@@ -980,6 +1343,8 @@ void drive_either(Sizes const &sz)
           record("eit_from_optional", std::string(1, *c), js(o), ex_d<Fv>(d), [&]
           { return with_cat(*c, o, [&](auto &&a) { return fcppt::either::from_optional(FWD(a), fn0<Fv>("ff", 0, d)); }); });
     });
+#endif
+#if K(eit_try_call)
   if (wanted("eit_try_call"))
     for_tables<Fv>(1, 100, rng_for("eit_try_call"), [&](Table<Fv> const &t)
     {
@@ -1000,69 +1365,101 @@ void drive_either(Sizes const &sz)
                 return t.at({ex.e});
               });
         });
+        // "an exception e of type Exception": an object of a class derived from Exception is one
+        if (o.throws)
+          record("eit_try_call", "derived", js(o), ex_tf(t), [&]
+          {
+            return fcppt::either::try_call<Exc>(
+                [&o]() -> Val
+                {
+                  log_call("g", 0, "");
+                  throw ExcDerived{o.v};
+                },
+                [&t](Exc const &ex) -> Fv
+                {
+                  log_call("te", 0, std::to_string(ex.e));
+                  return t.at({ex.e});
+                });
+          });
       });
     });
+#endif
+#if K(eit_success_opt) || K(eit_failure_opt)
   if (wanted("eit_success_opt") || wanted("eit_failure_opt"))
     for_values<ED>([&](ED const &e)
     {
       for (char const *c = cats3; *c; ++c)
       {
+#if K(eit_success_opt)
         if (wanted("eit_success_opt"))
           record("eit_success_opt", std::string(1, *c), js(e), "", [&]
           { return with_cat(*c, e, [&](auto &&a) { return fcppt::either::success_opt(FWD(a)); }); });
+#endif
+#if K(eit_failure_opt)
         if (wanted("eit_failure_opt"))
           record("eit_failure_opt", std::string(1, *c), js(e), "", [&]
           { return with_cat(*c, e, [&](auto &&a) { return fcppt::either::failure_opt(FWD(a)); }); });
+#endif
       }
     });
+#endif
+#if K(eit_eq) || K(eit_ne)
   if (wanted("eit_eq") || wanted("eit_ne"))
     for_values<ED>([&](ED const &x)
     {
       for_values<ED>([&](ED const &y)
       {
+#if K(eit_eq)
         if (wanted("eit_eq")) record("eit_eq", "cc", js(x) + "," + js(y), "", [&] { return x == y; });
+#endif
+#if K(eit_ne)
         if (wanted("eit_ne")) record("eit_ne", "cc", js(x) + "," + js(y), "", [&] { return x != y; });
+#endif
       });
     });
+#endif
 }
 
-// a visitor table for variant::apply: codes[(tag-1)*N + x] (unary) or
-// codes[((t1-1)*N + x1) * 3N + (t2-1)*N + x2] (binary); JSON nested as [tag][x]([tag][x])
+// a visitor table for variant::apply over `arity` variants with `tags` alternatives each: the entry
+// for (t_1,x_1,...,t_n,x_n) (tags 0-based here) is codes[idx] with idx = fold (idx*tags + t)*N + x;
+// JSON nested as [tag][x]([tag][x]...)
 struct Vis
 {
   int arity;
   std::vector<int> codes;
-  std::string json() const
+  int tags = 3;
+  long size() const { return ipow(static_cast<long>(tags) * N, arity); }
+  std::string json_from(int depth, long &pos) const
   {
+    if (depth == 2 * arity) return std::to_string(codes[static_cast<std::size_t>(pos++)]);
+    int const width = depth % 2 == 0 ? tags : N;
     std::string s = "[";
-    if (arity == 1)
+    for (int i = 0; i < width; ++i)
     {
-      for (int t = 0; t < 3; ++t)
-      {
-        s += t ? ",[" : "[";
-        for (int x = 0; x < N; ++x) s += (x ? "," : "") + std::to_string(codes[static_cast<std::size_t>(t * N + x)]);
-        s += "]";
-      }
-      return s + "]";
-    }
-    for (int t1 = 0; t1 < 3; ++t1)
-    {
-      s += t1 ? ",[" : "[";
-      for (int x1 = 0; x1 < N; ++x1)
-      {
-        s += x1 ? ",[" : "[";
-        for (int t2 = 0; t2 < 3; ++t2)
-        {
-          s += t2 ? ",[" : "[";
-          for (int x2 = 0; x2 < N; ++x2)
-            s += (x2 ? "," : "") + std::to_string(codes[static_cast<std::size_t>(((t1 * N + x1) * 3 + t2) * N + x2)]);
-          s += "]";
-        }
-        s += "]";
-      }
-      s += "]";
+      if (i != 0) s += ',';
+      s += json_from(depth + 1, pos);
     }
     return s + "]";
+  }
+  std::string json() const
+  {
+    long pos = 0;
+    return json_from(0, pos);
+  }
+  // tx = {t_1, x_1, ..., t_n, x_n}, tags 1-based; values outside the domain are looked up as 0 (the
+  // argument itself is logged by the caller and judged by TLC)
+  int at(std::vector<int> const &tx) const
+  {
+    long idx = 0;
+    for (std::size_t i = 0; i < tx.size(); i += 2)
+      idx = (idx * tags + (tx[i] - 1)) * N + (tx[i + 1] >= 0 && tx[i + 1] < N ? tx[i + 1] : 0);
+    return codes[static_cast<std::size_t>(idx)];
+  }
+  static Vis random(int arity, int tags, vj::Rng &rng)
+  {
+    Vis v{arity, {}, tags};
+    for (long i = 0; i < v.size(); ++i) v.codes.push_back(static_cast<int>(rng.below(N)));
+    return v;
   }
 };
 int in_dom(int x) { return x >= 0 && x < N ? x : 0; }
@@ -1077,6 +1474,7 @@ struct tag_of<Alt<K>>
 
 void drive_variant(Sizes const &sz)
 {
+#if K(var_match)
   if (wanted("var_match"))
   {
     vj::Rng rng{rng_for("var_match")};
@@ -1101,6 +1499,8 @@ void drive_variant(Sizes const &sz)
       });
     }
   }
+#endif
+#if K(var_match)
   if (wanted("var_match"))
   {
     vj::Rng rng{rng_for("var_match_rref")};
@@ -1118,6 +1518,8 @@ void drive_variant(Sizes const &sz)
       });
     }
   }
+#endif
+#if K(var_apply)
   if (wanted("var_apply"))
   {
     vj::Rng rng{rng_for("var_apply")};
@@ -1152,12 +1554,12 @@ void drive_variant(Sizes const &sz)
       {
         for_values<VD>([&](VD const &v2)
         {
-          for (char const *c = "lr"; *c; ++c)
-            record("var_apply", std::string(2, *c), js(v1) + "," + js(v2), ",\"tf\":" + vis.json(), [&]
+          for (char const *c : {"ll", "rr", "lr", "cl"})
+            record("var_apply", c, js(v1) + "," + js(v2), ",\"tf\":" + vis.json(), [&]
             {
-              return with_cat(*c, v1, [&](auto &&a)
+              return with_cat(c[0], v1, [&](auto &&a)
               {
-                return with_cat(*c, v2, [&](auto &&b)
+                return with_cat(c[1], v2, [&](auto &&b)
                 {
                   return fcppt::variant::apply(
                       [&vis](auto const &x, auto const &y) -> Val
@@ -1174,12 +1576,67 @@ void drive_variant(Sizes const &sz)
         });
       });
     }
+    // three variants (lvalues / rvalues), and one variant with four alternatives
+    for (long k = 0; k < std::min<long>((sz.vis2 + 2) / 3, 4); ++k)
+    {
+      Vis const vis{Vis::random(3, 3, rng)};
+      auto const visitor = [&vis](auto const &x, auto const &y, auto const &z) -> Val
+      {
+        constexpr int t1 = tag_of<std::remove_cvref_t<decltype(x)>>::value;
+        constexpr int t2 = tag_of<std::remove_cvref_t<decltype(y)>>::value;
+        constexpr int t3 = tag_of<std::remove_cvref_t<decltype(z)>>::value;
+        log_call("f", 0, js_tagged(x) + "," + js_tagged(y) + "," + js_tagged(z));
+        return Val(vis.at({t1, x.v, t2, y.v, t3, z.v}));
+      };
+      std::string const tj = ",\"tf\":" + vis.json();
+      for (long i = 0; i < ipow(count_of<VD>, 3); ++i)
+      {
+        std::vector<int> const cs{digits(i, 3, count_of<VD>)};
+        VD const v1{dec<VD>(cs[0])}, v2{dec<VD>(cs[1])}, v3{dec<VD>(cs[2])};
+        std::string const args = js(v1) + "," + js(v2) + "," + js(v3);
+        record("var_apply", "lll", args, tj, [&]
+        {
+          VD a(v1), b(v2), c(v3);
+          return fcppt::variant::apply(visitor, a, b, c);
+        });
+        record("var_apply", "rrr", args, tj, [&]
+        {
+          VD a(v1), b(v2), c(v3);
+          return fcppt::variant::apply(visitor, std::move(a), std::move(b), std::move(c));
+        });
+      }
+    }
+    for (long k = 0; k < sz.vis1 / 4; ++k)
+    {
+      Vis const vis{Vis::random(1, 4, rng)};
+      for_values<VD4>([&](VD4 const &v)
+      {
+        for (char const *c = cats3; *c; ++c)
+          record("var_apply", std::string(1, *c), js(v), ",\"tf\":" + vis.json(), [&]
+          {
+            return with_cat(*c, v, [&](auto &&a)
+            {
+              return fcppt::variant::apply(
+                  [&vis](auto const &x) -> Val
+                  {
+                    constexpr int tag = tag_of<std::remove_cvref_t<decltype(x)>>::value;
+                    log_call("f", 0, js_tagged(x));
+                    return Val(vis.at({tag, x.v}));
+                  },
+                  FWD(a));
+            });
+          });
+      });
+    }
   }
+#endif
+#if K(var_to_optional) || K(var_holds_type)
   if (wanted("var_to_optional") || wanted("var_holds_type"))
     for_values<VD>([&](VD const &v)
     {
       for (char const *c = cats3; *c; ++c)
       {
+#if K(var_to_optional)
         if (wanted("var_to_optional"))
         {
           record("var_to_optional", std::string(1, *c), js(v), ",\"i\":1", [&]
@@ -1189,63 +1646,117 @@ void drive_variant(Sizes const &sz)
           record("var_to_optional", std::string(1, *c), js(v), ",\"i\":3", [&]
           { return with_cat(*c, v, [&](auto &&a) { return fcppt::variant::to_optional<A3>(FWD(a)); }); });
         }
+#endif
       }
+#if K(var_holds_type)
       if (wanted("var_holds_type"))
       {
         record("var_holds_type", "c", js(v), ",\"i\":1", [&] { return fcppt::variant::holds_type<A1>(v); });
         record("var_holds_type", "c", js(v), ",\"i\":2", [&] { return fcppt::variant::holds_type<A2>(v); });
         record("var_holds_type", "c", js(v), ",\"i\":3", [&] { return fcppt::variant::holds_type<A3>(v); });
       }
+#endif
     });
+#endif
+#if K(var_compare)
   if (wanted("var_compare"))
-    for (auto [k, rng] = std::pair<long, vj::Rng>{0L, rng_for("var_compare")}; k < sz.cmp; ++k)
+  {
+    auto const run = [&](auto tag, long count, char const *stream)
     {
-      // predicate table c[tag][x][y]; the first four are ==, !=, true, false
-      std::vector<int> codes;
-      for (int t = 0; t < 3; ++t)
-        for (int x = 0; x < N; ++x)
-          for (int y = 0; y < N; ++y)
-            codes.push_back(k == 0 ? (x == y) : k == 1 ? (x != y) : k == 2 ? 1 : k == 3 ? 0 : static_cast<int>(rng.below(2)));
-      std::string tj = "[";
-      for (int t = 0; t < 3; ++t)
+      using V = typename decltype(tag)::type;
+      constexpr int tags = count_of<V> / N;
+      vj::Rng rng{rng_for(stream)};
+      for (long k = 0; k < count; ++k)
       {
-        tj += t ? ",[" : "[";
-        for (int x = 0; x < N; ++x)
+        // predicate table c[tag][x][y]; the first four are ==, !=, true, false
+        std::vector<int> codes;
+        for (int t = 0; t < tags; ++t)
+          for (int x = 0; x < N; ++x)
+            for (int y = 0; y < N; ++y)
+              codes.push_back(k == 0 ? (x == y) : k == 1 ? (x != y) : k == 2 ? 1 : k == 3 ? 0 : static_cast<int>(rng.below(2)));
+        std::string tj = "[";
+        for (int t = 0; t < tags; ++t)
         {
-          tj += x ? ",[" : "[";
-          for (int y = 0; y < N; ++y) tj += std::string(y ? "," : "") + (codes[static_cast<std::size_t>((t * N + x) * N + y)] ? "true" : "false");
+          tj += t ? ",[" : "[";
+          for (int x = 0; x < N; ++x)
+          {
+            tj += x ? ",[" : "[";
+            for (int y = 0; y < N; ++y) tj += std::string(y ? "," : "") + (codes[static_cast<std::size_t>((t * N + x) * N + y)] ? "true" : "false");
+            tj += "]";
+          }
           tj += "]";
         }
         tj += "]";
-      }
-      tj += "]";
-      for_values<VD>([&](VD const &v1)
-      {
-        for_values<VD>([&](VD const &v2)
+        for_values<V>([&](V const &v1)
         {
-          record("var_compare", "cc", js(v1) + "," + js(v2), ",\"tf\":" + tj, [&]
+          for_values<V>([&](V const &v2)
           {
-            return fcppt::variant::compare(v1, v2, [&codes](auto const &x, auto const &y) -> bool
+            record("var_compare", "cc", js(v1) + "," + js(v2), ",\"tf\":" + tj, [&]
             {
-              static_assert(std::is_same_v<decltype(x), decltype(y)>);
-              constexpr int tag = tag_of<std::remove_cvref_t<decltype(x)>>::value;
-              log_call("c", tag, js(x) + "," + js(y));
-              return codes[static_cast<std::size_t>(((tag - 1) * N + in_dom(x.v)) * N + in_dom(y.v))] != 0;
+              return fcppt::variant::compare(v1, v2, [&codes](auto const &x, auto const &y) -> bool
+              {
+                static_assert(std::is_same_v<decltype(x), decltype(y)>);
+                constexpr int tg = tag_of<std::remove_cvref_t<decltype(x)>>::value;
+                log_call("c", tg, js(x) + "," + js(y));
+                return codes[static_cast<std::size_t>(((tg - 1) * N + in_dom(x.v)) * N + in_dom(y.v))] != 0;
+              });
             });
           });
         });
-      });
-    }
+      }
+    };
+    struct tag3 { using type = VD; };
+    struct tag4 { using type = VD4; };
+    run(tag3{}, sz.cmp, "var_compare");
+    run(tag4{}, 4 + sz.cmp / 8, "var_compare4"); // four alternatives: ==, !=, true, false and a few random ones
+  }
+#endif
+#if K(var_eq) || K(var_ne) || K(var_less)
   if (wanted("var_eq") || wanted("var_ne") || wanted("var_less"))
     for_values<VD>([&](VD const &x)
     {
       for_values<VD>([&](VD const &y)
       {
+#if K(var_eq)
         if (wanted("var_eq")) record("var_eq", "cc", js(x) + "," + js(y), "", [&] { return x == y; });
+#endif
+#if K(var_ne)
         if (wanted("var_ne")) record("var_ne", "cc", js(x) + "," + js(y), "", [&] { return x != y; });
+#endif
+#if K(var_less)
         if (wanted("var_less")) record("var_less", "cc", js(x) + "," + js(y), "", [&] { return x < y; });
+#endif
       });
     });
+#endif
+}
+
+// the accessors of variant::object: type_index() / is_invalid() (the tag of the tagged union) and
+// get_unsafe<T>() for the held type T (member, const and non-const, and the free function)
+template <typename V>
+void drive_accessors()
+{
+  for_values<V>([&](V const &v)
+  {
+#if K(var_index)
+    if (wanted("var_index"))
+      record_raw("var_index", "c", js(v), "", [&]
+      { return "{\"idx\":" + std::to_string(reported_index(v)) + ",\"invalid\":" + js(v.is_invalid()) + "}"; });
+#endif
+#if K(var_get)
+    if (wanted("var_get"))
+      std::visit(
+          [&](auto const &held)
+          {
+            using H = std::remove_cvref_t<decltype(held)>;
+            record("var_get", "c", js(v), ",\"pm\":\"member\"", [&] { return v.template get_unsafe<H>(); });
+            record("var_get", "l", js(v), ",\"pm\":\"member\"", [&] { V w(v); return w.template get_unsafe<H>(); });
+            record("var_get", "c", js(v), ",\"pm\":\"free\"", [&] { return fcppt::variant::get_unsafe<H>(v); });
+            record("var_get", "l", js(v), ",\"pm\":\"free\"", [&] { V w(v); return fcppt::variant::get_unsafe<H>(w); });
+          },
+          v.impl());
+#endif
+  });
 }
 
 // ------------------------------------------------------------------ extension round
@@ -1263,8 +1774,21 @@ struct d3 : virtual base {};
 struct d1child : d1 {};
 struct d12 : d1, d2 {};
 
+// code points of an output text; anything that is not a code point is clamped (TLC integers are 32-bit)
 template <typename S>
-std::string text_of(S const &s) { return vj::cps(s); }
+std::string text_of(S const &s)
+{
+  std::string r = "[";
+  bool first = true;
+  for (auto c : s)
+  {
+    if (!first) r += ',';
+    first = false;
+    auto const u = static_cast<unsigned long long>(static_cast<std::make_unsigned_t<decltype(c)>>(c));
+    r += std::to_string(u <= 0x10FFFFULL ? u : 0x110000ULL);
+  }
+  return r + "]";
+}
 
 // outcome of a call that returns a value or throws Exc
 template <typename Call>
@@ -1284,14 +1808,7 @@ std::string outcome_js(Call const &call)
 template <typename Body>
 void record_raw(char const *f, std::string const &cat, std::string const &args, std::string const &extra, Body const &body)
 {
-  g_calls.clear();
-  std::string pre = "{\"f\":\"";
-  pre += f;
-  pre += "\",\"cat\":\"" + cat + "\",\"a\":[" + args + "]" + extra;
-  vj::begin_call(pre);
-  std::string const res = body();
-  vj::end_call(",\"res\":" + res + ",\"calls\":[" + g_calls + "]}");
-  ++g_records;
+  record_guarded(f, cat, args, extra, [&body]() -> std::string { return body(); });
 }
 std::string store_js(std::array<Val, N> const &cells)
 {
@@ -1299,22 +1816,28 @@ std::string store_js(std::array<Val, N> const &cells)
   for (int i = 0; i < N; ++i) s += (i ? "," : "") + js(cells[static_cast<std::size_t>(i)]);
   return s + "]";
 }
+#if K(opt_from_pointer) || K(opt_to_pointer) || K(opt_deref) || K(opt_copy_value) || K(opt_ref_write)
 using oref = fcppt::optional::reference<Val>;
+// 1-based index of the cell a pointer designates; anything outside the store is clamped to 99 (an
+// absurd address must reach the judge as a wrong result, not as an integer TLC cannot read)
+long cell_index(Val const *p, std::array<Val, N> const &cells)
+{
+  for (int i = 0; i < N; ++i)
+    if (p == &cells[static_cast<std::size_t>(i)]) return i + 1;
+  return 99;
+}
 std::string ref_js(oref const &o, std::array<Val, N> const &cells)
 {
   if (!o.has_value()) return "{\"t\":\"none\"}";
-  return "{\"t\":\"some\",\"v\":{\"ref\":" + std::to_string((&o.get_unsafe().get() - cells.data()) + 1) + "}}";
+  return "{\"t\":\"some\",\"v\":{\"ref\":" + std::to_string(cell_index(&o.get_unsafe().get(), cells)) + "}}";
 }
-
-template <typename V>
-void drive_variant_n(char const *suffix_cat)
-{
-  (void)suffix_cat;
-}
+#endif
 
 void drive_ext(Sizes const &sz)
 {
+  (void)sz;
   // ---- pointers and references over a store of N cells
+#if K(opt_from_pointer) || K(opt_to_pointer) || K(opt_deref) || K(opt_copy_value) || K(opt_ref_write)
   for (long st = 0; st < ipow(N, N); ++st)
   {
     std::vector<int> const cs{digits(st, N, N)};
@@ -1328,14 +1851,19 @@ void drive_ext(Sizes const &sz)
       std::string const oj = ref_js(o, cells);
       if (st == 0)
       {
+#if K(opt_from_pointer)
         if (wanted("opt_from_pointer"))
           record_raw("opt_from_pointer", "", std::to_string(p), "", [&] { return ref_js(fcppt::optional::from_pointer(ptr), cells); });
+#endif
+#if K(opt_to_pointer)
         if (wanted("opt_to_pointer"))
           record_raw("opt_to_pointer", "", oj, "", [&]
           {
             Val *const r = fcppt::optional::to_pointer(o);
-            return std::to_string(r == nullptr ? 0 : (r - cells.data()) + 1);
+            return std::to_string(r == nullptr ? 0 : cell_index(r, cells));
           });
+#endif
+#if K(opt_deref)
         if (wanted("opt_deref"))
         {
           using optr = fcppt::optional::object<Val *>;
@@ -1343,9 +1871,13 @@ void drive_ext(Sizes const &sz)
           record_raw("opt_deref", "", p == 0 ? std::string{"{\"t\":\"none\"}"} : "{\"t\":\"some\",\"v\":" + std::to_string(p) + "}", "",
                      [&] { return ref_js(fcppt::optional::deref(op), cells); });
         }
+#endif
       }
+#if K(opt_copy_value)
       if (wanted("opt_copy_value"))
         record("opt_copy_value", "", oj, stj, [&] { return fcppt::optional::copy_value(o); });
+#endif
+#if K(opt_ref_write)
       if (wanted("opt_ref_write"))
         for (int y = 0; y < N; ++y)
         {
@@ -1358,13 +1890,16 @@ void drive_ext(Sizes const &sz)
             return store_js(cells2);
           });
         }
+#endif
     }
   }
+#endif
   // ---- value semantics, assign, nothing, make, to_exception, output
   for_values<OD>([&](OD const &o)
   {
     for (int y = 0; y < N; ++y)
     {
+#if K(opt_value_copy_write)
       if (wanted("opt_value_copy_write"))
         record_raw("opt_value_copy_write", "", js(o), ex_d<Val>(y), [&]
         {
@@ -1372,6 +1907,8 @@ void drive_ext(Sizes const &sz)
           fcppt::optional::maybe_void(copy, [y](Val &v) { v = Val(y); });
           return "[" + js(o) + "," + js(copy) + "]";
         });
+#endif
+#if K(opt_assign)
       if (wanted("opt_assign"))
         for (int x = 0; x < N; ++x)
           // assign's requires-clause compares Element with remove_cv_t<Arg> (a reference type for
@@ -1386,6 +1923,8 @@ void drive_ext(Sizes const &sz)
               r = Val(y);
               return "{\"ret\":" + seen + ",\"opt\":" + js(target) + "}";
             });
+#endif
+#if K(opt_to_exception)
       if (wanted("opt_to_exception"))
         for (char const *c = cats3; *c; ++c)
           record_raw("opt_to_exception", std::string(1, *c), js(o), ex_d<Val>(y), [&]
@@ -1402,7 +1941,9 @@ void drive_ext(Sizes const &sz)
               });
             });
           });
+#endif
     }
+#if K(opt_output)
     if (wanted("opt_output"))
     {
       record_raw("opt_output", "char", js(o), "", [&]
@@ -1418,7 +1959,9 @@ void drive_ext(Sizes const &sz)
         return text_of(s.str());
       });
     }
+#endif
   });
+#if K(optopt_output)
   if (wanted("optopt_output"))
     for_values<OOD>([&](OOD const &o)
     {
@@ -1429,36 +1972,52 @@ void drive_ext(Sizes const &sz)
         return text_of(s.str());
       });
     });
+#endif
+#if K(opt_nothing)
   if (wanted("opt_nothing"))
   {
     record("opt_nothing", "", "", "", [] { OD const o = fcppt::optional::nothing{}; return o; });
     record("opt_nothing", "", "", "", [] { OOD const o = fcppt::optional::nothing{}; return o; });
   }
+#endif
   for (int x = 0; x < N; ++x)
   {
     for (char const *c = "cr"; *c; ++c)
     {
       Val arg(x);
+#if K(opt_make)
       if (wanted("opt_make"))
         record("opt_make", std::string(1, *c), std::to_string(x), "", [&] { Val a(arg); return *c == 'c' ? fcppt::optional::make(std::as_const(a)) : fcppt::optional::make(std::move(a)); });
+#endif
+#if K(eit_make_success)
       if (wanted("eit_make_success"))
         record("eit_make_success", std::string(1, *c), std::to_string(x), "", [&] { Val a(arg); return *c == 'c' ? fcppt::either::make_success<Fv>(std::as_const(a)) : fcppt::either::make_success<Fv>(std::move(a)); });
+#endif
+#if K(eit_make_failure)
       if (wanted("eit_make_failure"))
         record("eit_make_failure", std::string(1, *c), std::to_string(x), "", [&] { Fv a(x); return *c == 'c' ? fcppt::either::make_failure<Val>(std::as_const(a)) : fcppt::either::make_failure<Val>(std::move(a)); });
+#endif
+#if K(monad_return_opt)
       if (wanted("monad_return_opt"))
         // monad::instance<...>::return_ constrains Value (not remove_cvref_t<Value>) to be an object
         // type, so only rvalues are accepted
         record("monad_return_opt", "r", std::to_string(x), "", [&] { Val a(arg); return fcppt::monad::return_<OD>(std::move(a)); });
+#endif
+#if K(monad_return_eit)
       if (wanted("monad_return_eit"))
         record("monad_return_eit", "r", std::to_string(x), "", [&] { Val a(arg); return fcppt::monad::return_<ED>(std::move(a)); });
+#endif
     }
+#if K(eit_construct)
     if (wanted("eit_construct"))
       for (int y = 0; y < N; ++y)
         for (int b = 0; b < 2; ++b)
           record("eit_construct", "", js(b != 0), ",\"x\":" + std::to_string(x) + ex_d<Fv>(y),
                  [&] { return fcppt::either::construct(b != 0, fn0<Val>("s", 0, x), fn0<Fv>("f", 0, y)); });
+#endif
   }
   // ---- either
+#if K(eit_error_from_optional)
   if (wanted("eit_error_from_optional"))
     for_values<fcppt::optional::object<Fv>>([&](fcppt::optional::object<Fv> const &o)
     {
@@ -1466,8 +2025,10 @@ void drive_ext(Sizes const &sz)
         record("eit_error_from_optional", std::string(1, *c), js(o), "", [&]
         { return with_cat(*c, o, [&](auto &&a) { return fcppt::either::error_from_optional(FWD(a)); }); });
     });
+#endif
   for_values<ED>([&](ED const &e)
   {
+#if K(eit_to_exception)
     if (wanted("eit_to_exception"))
       for_tables<Val>(1, 100, rng_for("eit_to_exception"), [&](Table<Val> const &t)
       {
@@ -1487,6 +2048,8 @@ void drive_ext(Sizes const &sz)
             });
           });
       });
+#endif
+#if K(eit_output)
     if (wanted("eit_output"))
       record_raw("eit_output", "char", js(e), "", [&]
       {
@@ -1494,7 +2057,9 @@ void drive_ext(Sizes const &sz)
         s << e;
         return text_of(s.str());
       });
+#endif
   });
+#if K(eit_sequence_error)
   if (wanted("eit_sequence_error"))
     for_tables<UE>(1, 100, rng_for("eit_sequence_error"), [&](Table<UE> const &t)
     {
@@ -1508,6 +2073,7 @@ void drive_ext(Sizes const &sz)
           });
       });
     });
+#endif
   // ---- variant: assignment between alternatives, references, output, four alternatives
   auto const assign_records = [&](auto tag)
   {
@@ -1516,30 +2082,46 @@ void drive_ext(Sizes const &sz)
     {
       for_values<V>([&](V const &w)
       {
-        if (wanted("var_assign"))
+#if K(var_assign) || K(var_assign_src)
+        // every assignment is recorded twice: the target afterwards (var_assign) and the index the
+        // source reports afterwards (var_assign_src; 0 = invalid)
         {
-          record_raw("var_assign", "copy", js(v) + "," + js(w), "", [&]
+          auto const both = [&](char const *cat, auto const &run)
+          {
+#if K(var_assign)
+            if (wanted("var_assign"))
+              record_raw("var_assign", cat, js(v) + "," + js(w), "", [&] { return run(true); });
+#endif
+#if K(var_assign_src)
+            if (wanted("var_assign_src"))
+              record_raw("var_assign_src", cat, js(v) + "," + js(w), "", [&] { return run(false); });
+#endif
+          };
+          auto const src_index = [](V const &src) { return std::to_string(src.is_invalid() ? 0 : reported_index(src)); };
+          both("copy", [&](bool const want_dst)
           {
             V dst{v};
             V const src{w};
             dst = src;
-            return "{\"dst\":" + js(dst) + ",\"src_t\":" + std::to_string(src.is_invalid() ? 0 : src.type_index() + 1) + "}";
+            return want_dst ? js(dst) : src_index(src);
           });
-          record_raw("var_assign", "move", js(v) + "," + js(w), "", [&]
+          both("move", [&](bool const want_dst)
           {
             V dst{v};
             V src{w};
             dst = std::move(src);
-            return "{\"dst\":" + js(dst) + ",\"src_t\":" + std::to_string(src.is_invalid() ? 0 : src.type_index() + 1) + "}";
+            return want_dst ? js(dst) : src_index(src);
           });
-          record_raw("var_assign", "move-construct", js(v) + "," + js(w), "", [&]
+          both("move-construct", [&](bool const want_dst)
           {
             V src{w};
             V const dst{std::move(src)};
-            return "{\"dst\":" + js(dst) + ",\"src_t\":" + std::to_string(src.is_invalid() ? 0 : src.type_index() + 1) + "}";
+            return want_dst ? js(dst) : src_index(src);
           });
         }
+#endif
       });
+#if K(var_output)
       if (wanted("var_output"))
         record_raw("var_output", "char", js(v), "", [&]
         {
@@ -1547,6 +2129,7 @@ void drive_ext(Sizes const &sz)
           s << v;
           return text_of(s.str());
         });
+#endif
     });
   };
   struct tag3 { using type = VD; };
@@ -1555,6 +2138,7 @@ void drive_ext(Sizes const &sz)
   assign_records(tag4{});
   for_values<VD4>([&](VD4 const &v)
   {
+#if K(var_holds_type)
     if (wanted("var_holds_type"))
     {
       record("var_holds_type", "c", js(v), ",\"i\":1", [&] { return fcppt::variant::holds_type<A1>(v); });
@@ -1562,14 +2146,20 @@ void drive_ext(Sizes const &sz)
       record("var_holds_type", "c", js(v), ",\"i\":3", [&] { return fcppt::variant::holds_type<A3>(v); });
       record("var_holds_type", "c", js(v), ",\"i\":4", [&] { return fcppt::variant::holds_type<A4>(v); });
     }
+#endif
     for (char const *c = cats3; *c; ++c)
     {
+#if K(var_to_optional)
       if (wanted("var_to_optional"))
       {
         record("var_to_optional", std::string(1, *c), js(v), ",\"i\":1", [&] { return with_cat(*c, v, [&](auto &&a) { return fcppt::variant::to_optional<A1>(FWD(a)); }); });
+        record("var_to_optional", std::string(1, *c), js(v), ",\"i\":2", [&] { return with_cat(*c, v, [&](auto &&a) { return fcppt::variant::to_optional<A2>(FWD(a)); }); });
+        record("var_to_optional", std::string(1, *c), js(v), ",\"i\":3", [&] { return with_cat(*c, v, [&](auto &&a) { return fcppt::variant::to_optional<A3>(FWD(a)); }); });
         record("var_to_optional", std::string(1, *c), js(v), ",\"i\":4", [&] { return with_cat(*c, v, [&](auto &&a) { return fcppt::variant::to_optional<A4>(FWD(a)); }); });
       }
+#endif
     }
+#if K(var_ref_write)
     if (wanted("var_ref_write"))
       for (int y = 0; y < N; ++y)
       {
@@ -1586,12 +2176,21 @@ void drive_ext(Sizes const &sz)
           return js(w);
         });
       }
+#endif
     for_values<VD4>([&](VD4 const &w)
     {
+#if K(var_eq)
       if (wanted("var_eq")) record("var_eq", "cc", js(v) + "," + js(w), "", [&] { return v == w; });
+#endif
+#if K(var_ne)
+      if (wanted("var_ne")) record("var_ne", "cc", js(v) + "," + js(w), "", [&] { return v != w; });
+#endif
+#if K(var_less)
       if (wanted("var_less")) record("var_less", "cc", js(v) + "," + js(w), "", [&] { return v < w; });
+#endif
     });
   });
+#if K(var_match)
   if (wanted("var_match"))
   {
     vj::Rng rng{rng_for("var_match4")};
@@ -1613,7 +2212,9 @@ void drive_ext(Sizes const &sz)
       });
     }
   }
+#endif
   // ---- dynamic_cast_: every dynamic type x every order of the target types
+#if K(var_dynamic_cast)
   if (wanted("var_dynamic_cast"))
   {
     auto const run = [&](base &obj, std::string const &castable)
@@ -1625,7 +2226,7 @@ void drive_ext(Sizes const &sz)
           if (!r.has_value()) return std::string{"{\"t\":\"none\"}"};
           auto const &var = r.get_unsafe();
           bool const same = fcppt::variant::apply([&obj](auto const &ref) { return dynamic_cast<base const *>(&ref.get()) == &obj; }, var);
-          return "{\"t\":\"some\",\"v\":{\"t\":" + std::to_string(var.type_index() + 1) + ",\"v\":" + (same ? "1" : "9") + "}}";
+          return "{\"t\":\"some\",\"v\":{\"t\":" + std::to_string(reported_index(var)) + ",\"v\":" + (same ? "1" : "9") + "}}";
         });
       };
       emit("[1,2]", fcppt::variant::dynamic_cast_<fcppt::mpl::list::object<d1, d2>, fcppt::cast::dynamic_fun>(obj));
@@ -1644,15 +2245,20 @@ void drive_ext(Sizes const &sz)
     run(o4, "[1]");
     run(o5, "[1,2]");
   }
+#endif
   // ---- monad::chain / monad::do_
+#if K(monad_chain_opt) || K(monad_do_opt)
   if (wanted("monad_chain_opt") || wanted("monad_do_opt"))
   {
     vj::Rng rng{rng_for("monad_opt")};
     for_values<OD>([&](OD const &o)
     {
+      (void)o;
+#if K(monad_chain_opt)
       for (char const *c = cats3; *c; ++c)
         if (wanted("monad_chain_opt"))
           record("monad_chain_opt", std::string(1, *c), js(o), ",\"tf\":[]", [&] { return with_cat(*c, o, [&](auto &&a) { return fcppt::monad::chain(FWD(a)); }); });
+#endif
     });
     for_tables<OD>(1, 100, rng_for("monad_opt1"), [&](Table<OD> const &k1)
     {
@@ -1666,6 +2272,7 @@ void drive_ext(Sizes const &sz)
           for (char const *c = cats3; *c; ++c)
           {
             std::string const cat(1, *c);
+#if K(monad_chain_opt)
             if (wanted("monad_chain_opt"))
             {
               if (&k2 == &k2 && k2.codes == k1.codes) // once per k1
@@ -1679,6 +2286,8 @@ void drive_ext(Sizes const &sz)
                 { return fcppt::monad::chain(FWD(a), fn1<OD>("f", 1, k1), fn1<OD>("f", 2, k2), fn1<OD>("f", 3, k3)); });
               });
             }
+#endif
+#if K(monad_do_opt)
             if (wanted("monad_do_opt"))
             {
               auto const f1 = [&k1](Val const &x) -> OD
@@ -1701,11 +2310,14 @@ void drive_ext(Sizes const &sz)
               record("monad_do_opt", cat, js(o), ",\"tf\":[" + k1.json() + "," + l2.json() + "," + l3.json() + "]", [&]
               { return with_cat(*c, o, [&](auto &&a) { return fcppt::monad::do_(FWD(a), f1, f2, f3); }); });
             }
+#endif
           }
         });
       });
     });
   }
+#endif
+#if K(monad_chain_eit) || K(monad_do_eit)
   if (wanted("monad_chain_eit") || wanted("monad_do_eit"))
   {
     vj::Rng rng{rng_for("monad_eit")};
@@ -1718,6 +2330,7 @@ void drive_ext(Sizes const &sz)
         for (char const *c = cats3; *c; ++c)
         {
           std::string const cat(1, *c);
+#if K(monad_chain_eit)
           if (wanted("monad_chain_eit"))
           {
             record("monad_chain_eit", cat, js(e), ",\"tf\":[" + k1.json() + "]", [&]
@@ -1725,6 +2338,8 @@ void drive_ext(Sizes const &sz)
             record("monad_chain_eit", cat, js(e), ",\"tf\":[" + k1.json() + "," + k2.json() + "]", [&]
             { return with_cat(*c, e, [&](auto &&a) { return fcppt::monad::chain(FWD(a), fn1<ED>("f", 1, k1), fn1<ED>("f", 2, k2)); }); });
           }
+#endif
+#if K(monad_do_eit)
           if (wanted("monad_do_eit"))
             record("monad_do_eit", cat, js(e), ",\"tf\":[" + k1.json() + "," + l2.json() + "]", [&]
             {
@@ -1743,10 +2358,12 @@ void drive_ext(Sizes const &sz)
                     });
               });
             });
+#endif
         }
       });
     });
   }
+#endif
 }
 }
 
@@ -1758,6 +2375,7 @@ int main(int argc, char **argv)
     return 3;
   }
   vj::open(argv[2]);
+  std::signal(SIGVTALRM, on_vtalrm);
   std::uint64_t const seed = std::strtoull(argv[3], nullptr, 10);
   bool const thorough = std::string(argv[4]) == "thorough";
   if (argc > 5) g_only = argv[5];
@@ -1766,6 +2384,8 @@ int main(int argc, char **argv)
   drive_optional(sz);
   drive_either(sz);
   drive_variant(sz);
+  drive_accessors<VD>();
+  drive_accessors<VD4>();
   drive_ext(sz);
   vj::close();
   std::fprintf(stderr, "c04_algebra: %ld records\n", g_records);
